@@ -110,7 +110,29 @@ func run(tb ev.TB, c xCase) (labels []string, nontrivial bool) {
 	for i := 0; i < 5; i++ {
 		recs = append(recs, refcodec.Record{Offset: int64(i), Timestamp: int64(1 + i), Value: []byte(fmt.Sprintf("seed-%d", i))})
 	}
-	cl.AppendBatches("t", 0, refcodec.MakeBatchV2(recs, 0))
+	cl.AppendBatches("t", 0, refcodec.MakeBatchV2(recs, 1)) // gzip: reading goes through the library's shared decompression buffers
+	// a second partition, read through a Conn of its own by "readZ" calls at the same time as the first Conn is used
+	cl.CreateTopic("z", 1)
+	cl.MoveLeader("z", 0, 1)
+	var zrecs []refcodec.Record
+	for i := 0; i < 6; i++ {
+		zrecs = append(zrecs, refcodec.Record{Offset: int64(i), Timestamp: int64(1 + i), Value: []byte(fmt.Sprintf("zeed-%d", i))}) // same shape as the records of "t": mixed-up bytes still parse
+	}
+	cl.AppendBatches("z", 0, refcodec.MakeBatchV2(zrecs, 1))
+	cl.CreateTopic("y", 1)
+	cl.MoveLeader("y", 0, 1)
+	var yrecs []refcodec.Record
+	for i := 0; i < 6; i++ {
+		yrecs = append(yrecs, refcodec.Record{Offset: int64(i), Timestamp: int64(1 + i), Value: []byte(fmt.Sprintf("yeed-%d", i))})
+	}
+	cl.AppendBatches("y", 0, refcodec.MakeBatchV2(yrecs, 1))
+	// a topic whose records are read one by one by "fetchRecords" calls while other calls use the transport: empty and
+	// null keys and values next to ordinary ones
+	cl.CreateTopic("e", 1)
+	cl.MoveLeader("e", 0, 1)
+	cl.AppendBatches("e", 0, refcodec.MakeBatchV2([]refcodec.Record{
+		{Offset: 0, Timestamp: 1, Key: []byte{}, Value: []byte{}}, {Offset: 1, Timestamp: 2, Key: []byte("ek-1"), Value: []byte("e-1")},
+		{Offset: 2, Timestamp: 3, KeyNull: true, Value: []byte("e-2")}, {Offset: 3, Timestamp: 4, Key: []byte("ek-3"), Value: []byte{}}, {Offset: 4, Timestamp: 5, Key: []byte("ek-4"), Value: []byte("e-4")}}, 0))
 	faults := map[int]call{}
 	for _, g := range c.Goroutines {
 		for _, k := range g {
@@ -123,7 +145,10 @@ func run(tb ev.TB, c xCase) (labels []string, nontrivial bool) {
 		switch r.ApiKey {
 		case 2:
 			p := r.Body["Topics"].([]any)[0].(map[string]any)["Partitions"].([]any)[0].(map[string]any)
-			return int(p["Timestamp"].(int64))
+			if ts := p["Timestamp"].(int64); ts > 0 {
+				return int(ts)
+			}
+			return 0 // first / last offset lookups of Seek: answered from the log
 		case 10:
 			var t int
 			fmt.Sscanf(r.Body["Key"].(string), "k-%d", &t)
@@ -134,7 +159,10 @@ func run(tb ev.TB, c xCase) (labels []string, nontrivial bool) {
 			return t
 		case 1:
 			p := r.Body["Topics"].([]any)[0].(map[string]any)["Partitions"].([]any)[0].(map[string]any)
-			return int(p["PartitionMaxBytes"].(int64)) // the tag travels in the partition byte limit
+			if mb := int(p["PartitionMaxBytes"].(int64)); mb < 1<<20 {
+				return mb // the tag travels in the partition byte limit
+			}
+			return 0 // batches read by readEarly / readZ / fetchRecords: answered from the log
 		case 0:
 			for _, tv := range r.Body["Topics"].([]any) {
 				for _, pv := range tv.(map[string]any)["Partitions"].([]any) {
@@ -219,6 +247,22 @@ func run(tb ev.TB, c xCase) (labels []string, nontrivial bool) {
 			tb.Fatalf("harness: dial: %v", err)
 		}
 		defer conn.Close()
+		ctx2, cancel2 := context.WithTimeout(context.Background(), 3*time.Second)
+		connZ, err := d.DialLeader(ctx2, "tcp", "b1.fake:9092", "z", 0)
+		cancel2()
+		if err != nil {
+			tb.Fatalf("harness: dial: %v", err)
+		}
+		defer connZ.Close()
+		connZ.SetDeadline(time.Now().Add(30 * time.Second))
+		ctx3, cancel3 := context.WithTimeout(context.Background(), 3*time.Second)
+		connY, err := d.DialLeader(ctx3, "tcp", "b1.fake:9092", "y", 0)
+		cancel3()
+		if err != nil {
+			tb.Fatalf("harness: dial: %v", err)
+		}
+		defer connY.Close()
+		connY.SetDeadline(time.Now().Add(30 * time.Second))
 		if c.DeadlineMs > 0 {
 			conn.SetDeadline(time.Now().Add(time.Duration(c.DeadlineMs) * time.Millisecond))
 		} else {
@@ -261,7 +305,26 @@ func run(tb ev.TB, c xCase) (labels []string, nontrivial bool) {
 						}
 						b := conn.ReadBatchWith(kafka.ReadBatchConfig{MinBytes: 1, MaxBytes: 1 << 20, MaxWait: 20 * time.Millisecond})
 						m, err := b.ReadMessage()
+						for extra := k.Tag % 3; extra > 0 && err == nil; extra-- {
+							// a second or third message after a pause (the batch stays open while other Conns work); it has
+							// to be the record following the first one
+							time.Sleep(time.Duration(k.Tag%4) * 100 * time.Microsecond)
+							m2, err2 := b.ReadMessage()
+							if err2 != nil {
+								break
+							}
+							if m2.Offset <= m.Offset {
+								err = fmt.Errorf("harness marker")
+								o.got, o.want = fmt.Sprintf("offset %d after %d", m2.Offset, m.Offset), "increasing offsets inside one batch"
+							}
+							m = m2
+						}
+						if o.want != "" {
+							b.Close()
+							break
+						}
 						cerr := b.Close()
+						b.Close() // closing twice is harmless (a deferred Close after an explicit one is common)
 						switch {
 						case err != nil:
 							o.err = err
@@ -271,6 +334,54 @@ func run(tb ev.TB, c xCase) (labels []string, nontrivial bool) {
 							// the Conn has one position shared by all callers: whatever offset the batch started at, the
 							// message must be the record the log holds at that offset (compared below)
 							o.got, o.want = fmt.Sprintf("%d:%s", m.Offset, m.Value), "record-at-offset"
+						}
+					case "readZ":
+						// another Conn (its own connection, its own partition) in use at the same time
+						if _, err := connZ.Seek(0, kafka.SeekStart); err != nil {
+							o.err = err
+							break
+						}
+						b := connZ.ReadBatchWith(kafka.ReadBatchConfig{MinBytes: 1, MaxBytes: 1 << 20, MaxWait: 20 * time.Millisecond})
+						// ... and a third one: two batches of two Conns open at the same time, read alternately by this caller
+						var by *kafka.Batch
+						if k.Tag%2 == 0 {
+							if _, err := connY.Seek(0, kafka.SeekStart); err == nil {
+								by = connY.ReadBatchWith(kafka.ReadBatchConfig{MinBytes: 1, MaxBytes: 1 << 20, MaxWait: 20 * time.Millisecond})
+							}
+						}
+						var got []string
+						for i := 0; i < 3; i++ {
+							m, err := b.ReadMessage()
+							if err != nil {
+								o.err = err
+								break
+							}
+							got = append(got, fmt.Sprintf("%d:%s", m.Offset, m.Value))
+							if by != nil {
+								if my, err := by.ReadMessage(); err == nil && string(my.Value) != fmt.Sprintf("yeed-%d", my.Offset) {
+									got = append(got, fmt.Sprintf("-1:third-Conn-read-%s-at-%d", my.Value, my.Offset))
+								}
+							}
+							time.Sleep(time.Duration(k.Tag%4) * 100 * time.Microsecond)
+						}
+						b.Close()
+						b.Close()
+						if by != nil {
+							by.Close()
+							by.Close()
+						}
+						// the other Conn's position is shared by the readZ callers only: whatever offsets came, each value must be
+						// the record of topic z at that offset -- also when a later read of the batch failed
+						for _, g := range got {
+							var off int
+							var val string
+							fmt.Sscanf(g, "%d:%s", &off, &val)
+							if off < 0 || off >= 6 || val != fmt.Sprintf("zeed-%d", off) {
+								o.err, o.got, o.want = nil, "second Conn read "+g, "ok"
+							}
+						}
+						if o.err == nil && o.want == "" && len(got) >= 3 {
+							o.got, o.want = "ok", "ok"
 						}
 					case "write":
 						var off int64
@@ -359,6 +470,8 @@ func run(tb ev.TB, c xCase) (labels []string, nontrivial bool) {
 						req = &findcoordinator.Request{Key: fmt.Sprintf("k-%d", k.Tag)}
 					case "committed":
 						req = &offsetfetch.Request{GroupID: fmt.Sprintf("g-%d", k.Tag), Topics: []offsetfetch.RequestTopic{{Name: "t", PartitionIndexes: []int32{0}}}}
+					case "fetchRecords":
+						req = &fetch.Request{ReplicaID: -1, MaxWaitTime: 1, MinBytes: 0, MaxBytes: 1 << 20, Topics: []fetch.RequestTopic{{Topic: "e", Partitions: []fetch.RequestPartition{{Partition: 0, FetchOffset: 0, PartitionMaxBytes: 1 << 20, CurrentLeaderEpoch: -1}}}}}
 					case "fetch":
 						req = &fetch.Request{ReplicaID: -1, MaxWaitTime: 1, MinBytes: 0, MaxBytes: 1 << 20, Topics: []fetch.RequestTopic{{Topic: "t", Partitions: []fetch.RequestPartition{{Partition: 0, FetchOffset: 0, PartitionMaxBytes: int32(k.Tag), CurrentLeaderEpoch: -1}}}}}
 					}
@@ -404,6 +517,35 @@ func run(tb ev.TB, c xCase) (labels []string, nontrivial bool) {
 						case *offsetfetch.Response:
 							o.got, o.want = fmt.Sprint(r.Topics[0].Partitions[0].CommittedOffset), fmt.Sprint(k.Tag)
 						case *fetch.Response:
+							if k.Kind == "fetchRecords" {
+								// the records are consumed one at a time, keys and values released as the caller goes, while the other
+								// goroutines keep the transport busy: what is read must stay this response's content
+								var got []string
+								if rr := r.Topics[0].Partitions[0].RecordSet.Records; rr != nil && r.Topics[0].Partitions[0].ErrorCode == 0 {
+									for {
+										rec, err := rr.ReadRecord()
+										if err != nil {
+											break
+										}
+										runtime.Gosched()
+										time.Sleep(time.Duration(k.Tag%5) * 50 * time.Microsecond)
+										kb, vb := []byte(nil), []byte(nil)
+										if rec.Key != nil {
+											kb, _ = io.ReadAll(rec.Key)
+											rec.Key.Close()
+										}
+										if rec.Value != nil {
+											vb, _ = io.ReadAll(rec.Value)
+											rec.Value.Close()
+										}
+										got = append(got, fmt.Sprintf("%d:%s=%s", rec.Offset, kb, vb))
+									}
+									o.got, o.want = strings.Join(got, " "), "0:= 1:ek-1=e-1 2:=e-2 3:ek-3= 4:ek-4=e-4"
+								} else {
+									o.got, o.want = "", ""
+								}
+								break
+							}
 							o.got, o.want = fmt.Sprint(r.Topics[0].Partitions[0].HighWatermark), fmt.Sprint(1000000+k.Tag)
 							if r.Topics[0].Partitions[0].ErrorCode != 0 {
 								o.got, o.want = "", ""
@@ -438,9 +580,14 @@ func run(tb ev.TB, c xCase) (labels []string, nontrivial bool) {
 	for _, o := range outs {
 		if o.err != nil {
 			errs++
+			ev.Count("failed_"+o.c.Kind, 1)
+			if o.c.Kind == "readZ" || o.c.Kind == "readEarly" {
+				ev.Note("example_error_"+o.c.Kind+"_"+c.Mode, fmt.Sprintf("%v (hammer=%v)", o.err, c.Barrier))
+			}
 			continue
 		}
 		oks++
+		ev.Count("answered_"+o.c.Kind, 1)
 		want := o.want
 		if want == "record-at-offset" {
 			var off int64
@@ -523,11 +670,11 @@ func run(tb ev.TB, c xCase) (labels []string, nontrivial bool) {
 
 func genCase(t *rapid.T, mode string) xCase {
 	c := xCase{Mode: mode, Brokers: 1, Sched: map[string]int{}}
-	kinds := []string{"offset", "partitions", "write", "create", "coordinator", "committed", "readEarly", "readEarly"}
+	kinds := []string{"offset", "partitions", "write", "create", "coordinator", "committed", "readEarly", "readEarly", "readZ", "readZ"}
 	if mode == "transport" {
 		c.Brokers = rapid.IntRange(1, 3).Draw(t, "brokers")
 		c.IdleMs = rapid.SampledFrom([]int{1, 5, 50, 1000}).Draw(t, "idleMs")
-		kinds = []string{"offset", "offsets2", "offsets2", "partitions", "write", "coordinator", "committed", "fetch"}
+		kinds = []string{"offset", "offsets2", "offsets2", "partitions", "write", "coordinator", "committed", "fetch", "fetchRecords", "fetchRecords"}
 	} else {
 		c.DeadlineMs = rapid.SampledFrom([]int{0, 0, 0, 30, 120}).Draw(t, "deadlineMs")
 	}
@@ -638,6 +785,9 @@ func TestConnHammer(t *testing.T) {
 		ng := rapid.IntRange(6, 16).Draw(t, "goroutines")
 		n := rapid.SampledFrom([]int{150, 400, 800}).Draw(t, "calls")
 		kinds := []string{"offset", "partitions", "partitions", "coordinator", "committed"}
+		if rapid.Bool().Draw(t, "withBatches") {
+			kinds = append(kinds, "readEarly", "readEarly", "readZ", "readZ", "readZ")
+		}
 		tag := 1000
 		for g := 0; g < ng; g++ {
 			var calls []call
